@@ -22,14 +22,21 @@ import (
 	"sync"
 	"time"
 
+	"free5gclib/aper"
+	"free5gclib/milenage"
 	"free5gclib/nas"
 	"free5gclib/nas/nasMessage"
+	"free5gclib/nas/nasType"
 	"free5gclib/nas/nasTestpacket"
 	"free5gclib/nas/security"
 	"free5gclib/nas/security/snow3g"
 	"free5gclib/ngap"
+	"free5gclib/ngap/ngapConvert"
+	"free5gclib/ngap/ngapType"
+	"stgutg"
 	"tglib"
 	"verifharness/internal/ev"
+	te "verifharness/internal/treeexp"
 )
 
 func goid() int64 {
@@ -266,7 +273,35 @@ func workload(seed int64, rounds int) [][]byte {
 			res := ue.DeriveRESstarAndSetKey(ue.AuthenticationSubs, autn, ev.Bytes(r, 16), "5G:mnc093.mcc208.3gppnetwork.org", "93", "208")
 			outs = append(outs, res, append([]byte{}, ue.Kamf...), append([]byte{}, ue.KnasInt[:]...))
 		}
-		_ = nasMessage.AccessType3GPP
+		// the other code paths of the emulator: SUCI and registration request, initial UE message, setup response with its transfer
+		// and address conversion, a transfer container decoded on its own, the Milenage functions directly
+		if i%2 == 0 {
+			imsi := fmt.Sprintf("20893%010d", seed*100+int64(i))
+			suci := stgutg.EncodeSuci([]byte(imsi), 2)
+			capab := &nasType.UESecurityCapability{Iei: nasMessage.RegistrationRequestUESecurityCapabilityType, Len: 2, Buffer: []uint8{0x80, 0x20}}
+			reg := nasTestpacket.GetRegistrationRequest(nasMessage.RegistrationType5GSInitialRegistration, *suci, nil, capab, nil, nil, nil)
+			iue, _ := tglib.GetInitialUEMessage(seed, reg, "")
+			ip := ngapConvert.IPAddressToNgap(fmt.Sprintf("10.%d.%d.%d", seed%250, i%250, 1+i%200), "")
+			v4, _ := ngapConvert.IPAddressToString(ip)
+			sr, _ := tglib.GetPDUSessionResourceSetupResponse(seed*7+int64(i), seed, int64(1+i%15), v4)
+			outs = append(outs, reg, iue, []byte(v4), sr)
+			g := &te.Gen{R: r, MaxList: 2, MaxStr: 8}
+			tv := reflect.New(reflect.TypeOf(ngapType.PDUSessionResourceSetupRequestTransfer{})).Elem()
+			g.Fill(tv, te.Parse("valueExt"), 1)
+			if tb, err := aper.MarshalWithParams(tv.Interface(), "valueExt"); err == nil {
+				var back ngapType.PDUSessionResourceSetupRequestTransfer
+				if aper.UnmarshalWithParams(tb, &back, "valueExt") == nil {
+					tb2, _ := aper.MarshalWithParams(back, "valueExt")
+					outs = append(outs, tb, tb2)
+				}
+			}
+			k, opc, rnd := ev.Bytes(r, 16), ev.Bytes(r, 16), ev.Bytes(r, 16)
+			macA, macS := make([]byte, 8), make([]byte, 8)
+			res, ck, ik, ak, aks := make([]byte, 8), make([]byte, 16), make([]byte, 16), make([]byte, 6), make([]byte, 6)
+			milenage.F1(opc, k, rnd, ev.Bytes(r, 6), []byte{0x80, 0}, macA, macS)
+			milenage.F2345(opc, k, rnd, res, ck, ik, ak, aks)
+			outs = append(outs, macA, macS, res, ck, ik, ak, aks)
+		}
 	}
 	return outs
 }
